@@ -23,10 +23,14 @@ def class_codes(cls, *extra):
             if isinstance(c, types.CodeType):
                 add(c)
     for v in list(vars(cls).values()) + list(extra):
-        f = getattr(v, "__func__", v)
-        f = getattr(f, "__wrapped__", f)
-        if isinstance(f, types.FunctionType):
-            add(f.__code__)
+        cands = [v]
+        if isinstance(v, property):
+            cands = [v.fget, v.fset, v.fdel]           # accessors of a property are functions of the class too
+        for v1 in cands:
+            f = getattr(v1, "__func__", v1)
+            f = getattr(f, "__wrapped__", f)
+            if isinstance(f, types.FunctionType):
+                add(f.__code__)
     return out
 
 
@@ -101,10 +105,128 @@ def explore_singleton(run, n_random):
         n = rng.randint(2, 3)
         seed = rng.randrange(1 << 30)
         raw = rng.random() < 0.4        # requesters that are not `threading.Thread`s (started below the threading module)
-        order, errors, rets, nobj = singleton_run(n, dsched.random_chooser(random.Random(seed)), opcode=True, raw=raw)
+        r2 = random.Random(seed)
+        chooser = dsched.pct_chooser(r2, depth=r2.randint(1, 3), est_len=80) if r2.random() < 0.5 else dsched.random_chooser(r2)
+        order, errors, rets, nobj = singleton_run(n, chooser, opcode=True, raw=raw)
         cj = {"what": "singleton-opcode", "threads": n, "seed": seed, "schedule": order, "raw_threads": raw}
         run.count("singleton opcode-level runs" + (" (requesters unknown to the threading module)" if raw else ""))
         singleton_oracle(run, rets, errors, cj)
+        run.case(cj, nontrivial=True)
+
+
+def singleton_failing_run(n, bad, chooser):
+    """as singleton_run at bytecode level, but the requests of the threads in `bad` pass an argument the constructor refuses
+    (TypeError): they must get their exception, the others one shared, fully initialised object"""
+    saved = msing.RLock if hasattr(msing, "RLock") else None
+    if saved is not None:
+        msing.RLock = dsched.DRLock
+    try:
+        counter = itertools.count()
+
+        class K:
+            def __init__(self, arg=None):
+                if arg is not None:
+                    raise TypeError("K takes no argument")
+                self.oid = next(counter)
+                self.ready = True
+        dec = msing.SingletonDecorator(K)
+        rets = [None] * n
+
+        def mk(i):
+            def f():
+                try:
+                    rets[i] = dec("fifo") if i in bad else dec()
+                except TypeError:
+                    rets[i] = "refused"
+            return f
+        order, errors, outcome, fin = run_threads([mk(i) for i in range(n)], chooser, class_codes(msing.SingletonDecorator))
+        out = []
+        for r in rets:
+            out.append(r if r == "refused" or r is None else (getattr(r, "oid", "no-oid"), bool(getattr(r, "ready", False))))
+        later = dec()
+        return order, errors, out, (getattr(later, "oid", "no-oid"), bool(getattr(later, "ready", False)))
+    finally:
+        if saved is not None:
+            msing.RLock = saved
+
+
+def explore_singleton_failing(run, n_random):
+    rng = run.rng
+    for _ in range(n_random):
+        n = rng.randint(2, 3)
+        bad = set(rng.sample(range(n), rng.randint(1, n - 1)))
+        seed = rng.randrange(1 << 30)
+        r2 = random.Random(seed)
+        # (priority schedules with one or two change points let one thread run far ahead before another takes a few steps)
+        chooser = dsched.pct_chooser(r2, depth=r2.randint(1, 3), est_len=90) if r2.random() < 0.7 else dsched.random_chooser(r2)
+        order, errors, rets, later = singleton_failing_run(n, bad, chooser)
+        cj = {"what": "singleton-failing", "threads": n, "bad": sorted(bad), "seed": seed, "schedule": order}
+        run.count("singleton: first requests of which some are refused by the constructor")
+        run.traces_validated += 1
+        if errors:
+            run.violate("C30/error", "a thread failed: %s" % errors[:2], cj)
+        # (a request with the refused argument that arrives when the object exists is simply handed the object)
+        good = [r for i, r in enumerate(rets) if i not in bad] + [rets[i] for i in bad if rets[i] != "refused"]
+        if any(r is None or r == "refused" or r != later or not r[1] for r in good):
+            run.violate("C30/two-instances", "some first requests were refused by the constructor (TypeError) while others ran: the accepted "
+                        "requests got %s (object number, initialised?), a later request gets %s" % (good, later), cj)
+        run.case(cj, nontrivial=True)
+
+
+def singleton_nested_run(direct, chooser):
+    """two different singletons whose constructors both ask for a third one (as ActiveFabric and the instrumentation writer both ask
+    for the run event), first requested at the same time from two threads - or one of them racing a direct first request of the third"""
+    saved = msing.RLock if hasattr(msing, "RLock") else None
+    if saved is not None:
+        msing.RLock = dsched.DRLock
+    try:
+        counter = itertools.count()
+
+        class I:
+            def __init__(self):
+                self.oid = next(counter)
+        Inner = msing.SingletonDecorator(I)
+
+        class A:
+            def __init__(self):
+                self.inner = Inner()
+
+        class B:
+            def __init__(self):
+                self.inner = Inner()
+        DA, DB = msing.SingletonDecorator(A), msing.SingletonDecorator(B)
+        rets = [None, None]
+
+        def t0():
+            rets[0] = DA().inner
+
+        def t1():
+            rets[1] = Inner() if direct else DB().inner
+        order, errors, outcome, fin = run_threads([t0, t1], chooser, class_codes(msing.SingletonDecorator))
+        later = Inner()
+        return order, errors, [getattr(r, "oid", None) for r in rets], later.oid, next(counter), all(fin)
+    finally:
+        if saved is not None:
+            msing.RLock = saved
+
+
+def explore_singleton_nested(run, n_random):
+    rng = run.rng
+    for _ in range(n_random):
+        direct = rng.random() < 0.4
+        seed = rng.randrange(1 << 30)
+        r2 = random.Random(seed)
+        chooser = dsched.pct_chooser(r2, depth=r2.randint(1, 3), est_len=120) if r2.random() < 0.6 else dsched.random_chooser(r2)
+        order, errors, rets, later, made, fin = singleton_nested_run(direct, chooser)
+        cj = {"what": "singleton-nested", "direct": direct, "seed": seed, "schedule": order}
+        run.count("singleton first requested from inside the constructors of two other singletons" + (" and directly" if direct else ""))
+        run.traces_validated += 1
+        if errors or not fin:
+            run.violate("C30/error", "nested first requests: %s" % (errors[:2] or "a request never returned"), cj)
+        elif made != 1 or rets[0] != later or rets[1] != later:
+            run.violate("C30/two-instances", "a singleton first requested from inside the constructors of two other singletons%s at the same time: "
+                        "%d objects were constructed, the requesters hold objects %s, a later request gets %s"
+                        % (" and directly" if direct else "", made, rets, later), cj)
         run.case(cj, nontrivial=True)
 
 
@@ -159,16 +281,27 @@ def registry_run(progs, chooser, opcode=False, via="append"):
         reg = mevent.SignalSource()
         before = dict(reg)
 
+        handed = []       # (name, number handed back to the caller of an attribute access)
+
+        asked = []        # (argument, answer) of is_inner_signal calls about the ten built-in signals
+
         def mk(p):
             def f():
                 for name in p:
-                    if via == "append":
+                    if name < 0:
+                        # a question, while others register: is this built-in signal (by name / by number) an inner signal?
+                        key = list(before)[(-name - 1) % 10]
+                        arg = key if name % 2 else before[key]
+                        asked.append((arg, reg.is_inner_signal(arg)))
+                    elif via == "append":
                         reg.append("N%d" % name)
                     else:
-                        getattr(reg, "N%d" % name)
+                        handed.append(("N%d" % name, getattr(reg, "N%d" % name)))
             return f
         codes = [c for c in class_codes(mevent.SignalSource) if c.co_name not in ("__init__",)] if opcode else None
         order, errors, outcome, fin = run_threads([mk(p) for p in progs], chooser, codes)
+        reg._vp_handed = handed
+        reg._vp_asked = asked
         return order, errors, before, dict(reg), reg
     finally:
         if saved is not None:
@@ -194,6 +327,16 @@ def registry_oracle(run, before, after, reg, errors, cj, names):
             if reg.name_for_signal(v) != k:
                 run.violate("C25/name_for_signal", "name_for_signal(%s) = %s, expected %s" % (v, reg.name_for_signal(v), k), cj)
                 break
+    for nm, num in getattr(reg, "_vp_handed", []):
+        if after.get(nm) != num:
+            run.violate("C25/attribute-access-number", "the attribute access signals.%s handed back %r, the registry binds that name to %r"
+                        % (nm, num, after.get(nm)), cj)
+            break
+    for arg, ans in getattr(reg, "_vp_asked", []):
+        if ans is not True:
+            run.violate("C25/inner-signals", "is_inner_signal(%r) answered %r while other threads were registering new names: it is one of the ten "
+                        "built-in signals" % (arg, ans), cj)
+            break
     inner = [k for k in after if reg.is_inner_signal(k)]
     if inner != list(before)[:10]:
         run.violate("C25/inner-signals", "inner signals are %s" % inner, cj)
@@ -232,12 +375,16 @@ def explore_registry(run, n_random):
     for _ in range(n_random):
         nt = rng.randint(2, 3)
         progs = [[rng.randint(1, 5) for _ in range(rng.randint(1, 2))] for _ in range(nt)]
+        if rng.random() < 0.5:
+            # one thread asks about built-in signals (the later ones in the table need the longer look) while the others register
+            progs[0] = [-rng.randint(1, 20) for _ in range(rng.randint(1, 2))]
+            run.count("is_inner_signal asked while names are being registered")
         seed = rng.randrange(1 << 30)
-        order, errors, before, after, reg = registry_run(progs, dsched.random_chooser(random.Random(seed)), opcode=True,
-                                                         via=rng.choice(["append", "attr"]))
-        cj = {"what": "registry-opcode", "progs": progs, "seed": seed, "schedule": order}
+        via = rng.choice(["append", "attr"])
+        order, errors, before, after, reg = registry_run(progs, dsched.random_chooser(random.Random(seed)), opcode=True, via=via)
+        cj = {"what": "registry-opcode", "progs": progs, "seed": seed, "schedule": order, "via": via}
         run.count("registry opcode-level runs")
-        registry_oracle(run, before, after, reg, errors, cj, set(x for p in progs for x in p))
+        registry_oracle(run, before, after, reg, errors, cj, set(x for p in progs for x in p if x > 0))
         run.case(cj, nontrivial=True)
     # lock-free readers racing registration: a number read from the registry is bound to its name for name_for_signal too
     for _ in range(n_random):
@@ -462,9 +609,42 @@ def make_falsy_class():
     return Obj
 
 
-def make_tsa_class(by_value=False):
+TSA_CLASS_SHAPES = ("body-number", "body-list", "body-none", "mixin-value", "subclass", "subclass-redeclares")
+
+
+def make_tsa_class(by_value=False, shape=None):
     class Obj(metaclass=mtsa.MetaThreadSafeAttributes):
         _attributes = ["x"]
+    if shape == "body-number":
+        class Obj(metaclass=mtsa.MetaThreadSafeAttributes):  # noqa
+            _attributes = ["x"]
+            x = 3                     # written for the reader / the IDE: the metaclass replaces it
+    elif shape == "body-list":
+        class Obj(metaclass=mtsa.MetaThreadSafeAttributes):  # noqa
+            _attributes = ["x"]
+            x = []
+    elif shape == "body-none":
+        class Obj(metaclass=mtsa.MetaThreadSafeAttributes):  # noqa
+            x = None
+            _attributes = ["x"]
+    elif shape == "mixin-value":
+        class Defaults:
+            x = 7
+
+        class Obj(Defaults, metaclass=mtsa.MetaThreadSafeAttributes):  # noqa
+            _attributes = ["x"]
+    elif shape == "subclass":
+        class Base(metaclass=mtsa.MetaThreadSafeAttributes):
+            _attributes = ["x"]
+
+        class Obj(Base):  # noqa
+            pass
+    elif shape == "subclass-redeclares":
+        class Base(metaclass=mtsa.MetaThreadSafeAttributes):
+            _attributes = ["x"]
+
+        class Obj(Base):  # noqa
+            _attributes = ["x", "y"]
     if by_value:
         # instances that compare (and hash) equal are still different objects with their own attribute values
         class Obj(metaclass=mtsa.MetaThreadSafeAttributes):  # noqa
@@ -489,7 +669,11 @@ def tsa_run(progs, chooser, opcode=False):
         return _tsa_run(progs, chooser, opcode)
 
 
+STMTS = None          # the module holding the statements (None: harness/tsa_stmts.py as imported from its file)
+
+
 def _tsa_run(progs, chooser, opcode=False):
+    tsa_stmts = STMTS or globals()["tsa_stmts"]
     Obj = make_tsa_class()
     o = Obj()
     desc = Obj.__dict__["x"]
@@ -605,6 +789,51 @@ def explore_tsa(run, n_random):
         run.case(cj, nontrivial=True)
 
 
+import contextlib
+
+
+@contextlib.contextmanager
+def zipped_stmts(tag):
+    """the statements module imported from a zip archive on sys.path (built in a scratch directory, removed afterwards)"""
+    import tempfile, zipfile, shutil, importlib
+    global STMTS
+    tmp = tempfile.mkdtemp(prefix="vp_zip_")
+    modname = "tsa_stmts_zipped_%d_%d" % (os.getpid(), tag)
+    zpath = os.path.join(tmp, "bundle.zip")
+    try:
+        with zipfile.ZipFile(zpath, "w") as z:
+            z.writestr(modname + ".py", open(os.path.join(os.path.dirname(os.path.abspath(__file__)), "tsa_stmts.py")).read())
+        sys.path.insert(0, zpath)
+        importlib.invalidate_caches()
+        STMTS = importlib.import_module(modname)
+        yield STMTS
+    finally:
+        STMTS = None
+        if zpath in sys.path:
+            sys.path.remove(zpath)
+        sys.modules.pop(modname, None)
+        shutil.rmtree(tmp, ignore_errors=True)
+
+
+def explore_tsa_loader_source(run, n_random):
+    """C27 / C28 for statements whose source text is only reachable through the module's loader: the statements module imported
+    from a zip archive on sys.path (a zipapp, an egg), never seen by linecache before (oracle only)"""
+    import linecache
+    rng = run.rng
+    with zipped_stmts(rng.randrange(1 << 30)):
+        for _ in range(n_random):
+            progs = [[("aug", rng.randint(1, 9)) if rng.random() < 0.8 else ("assign", rng.randint(1, 9)) for _ in range(rng.randint(1, 2))]
+                     for _ in range(rng.randint(2, 3))]
+            seed = rng.randrange(1 << 30)
+            linecache.clearcache()
+            order, errors, val, owner, count, fin, outcome = tsa_run(progs, dsched.random_chooser(random.Random(seed)))
+            cj = {"what": "tsa-zip", "progs": progs, "seed": seed, "schedule": order}
+            run.count("statements in a module imported from a zip archive (source served by the loader)")
+            run.traces_validated += 1
+            tsa_oracle(run, progs, errors, val, owner, count, fin, cj)
+            run.case(cj, nontrivial=True)
+
+
 def tsa_oracle(run, progs, errors, val, owner, count, fin, cj):
     if errors:
         run.violate("C27/error", "a statement using the attribute failed: %s" % errors[:2], cj)
@@ -625,7 +854,10 @@ def explore_instances(run, n_random):
         by_value = rng.random() < 0.4
         delegating = not by_value and rng.random() < 0.3
         falsy = not by_value and not delegating and rng.random() < 0.25
-        Obj = make_delegating_class() if delegating else (make_falsy_class() if falsy else make_tsa_class(by_value))
+        shape = rng.choice(TSA_CLASS_SHAPES) if (not by_value and not delegating and not falsy and rng.random() < 0.35) else None
+        Obj = make_delegating_class() if delegating else (make_falsy_class() if falsy else make_tsa_class(by_value, shape))
+        if shape:
+            run.count("class shape: " + shape)
         if falsy:
             run.count("instances are falsy (__len__ == 0)")
         run.count("instances %s" % ("forward unknown attributes to the first instance (__getattr__)" if delegating else
@@ -655,8 +887,9 @@ def explore_instances(run, n_random):
                 ops.append(("new",))
                 got = insts[-1].x
                 if got != 0:
-                    run.violate("C29/new-instance-not-zero", "a new instance reads %r (other instances were assigned before)" % (got,),
-                                {"what": "instances", "ops": ops})
+                    run.violate("C29/new-instance-not-zero", "a new instance%s reads %r (other instances were assigned before)"
+                                % (" of a class of shape %s" % shape if shape else "", got), {"what": "instances", "ops": ops, "shape": shape})
+                    break
             elif r < 0.55:
                 i, v = rng.randrange(len(insts)), rng.randint(1, 99)
                 insts[i].x = v
@@ -698,7 +931,7 @@ def explore_instances(run, n_random):
                         continue
                     if got != model.get(k, 0):
                         run.violate("C29/value-shared-between-instances", "after `%s` (a = instance %d, b = instance %d) instance %d holds %r, "
-                                    "expected %r" % (form, i, j, k, got, model.get(k, 0)), {"what": "instances", "ops": ops})
+                                    "expected %r" % (form, i, j, k, got, model.get(k, 0)), {"what": "instances", "ops": ops, "shape": shape})
                         model[k] = got
             else:
                 i = rng.randrange(len(insts))
@@ -706,14 +939,14 @@ def explore_instances(run, n_random):
                 ops.append(("get", i))
                 if got != model.get(i, 0):
                     run.violate("C29/value-shared-between-instances", "instance %d reads %r, the last value assigned to it is %r"
-                                % (i, got, model.get(i, 0)), {"what": "instances", "ops": ops})
+                                % (i, got, model.get(i, 0)), {"what": "instances", "ops": ops, "shape": shape})
         for k in range(len(insts)):
             got = insts[k].x
             if got != model.get(k, 0):
                 run.violate("C29/value-shared-between-instances", "at the end instance %d reads %r, the value it should hold is %r"
-                            % (k, got, model.get(k, 0)), {"what": "instances", "ops": ops})
+                            % (k, got, model.get(k, 0)), {"what": "instances", "ops": ops, "shape": shape})
         run.traces_validated += 1
-        run.case({"what": "instances", "ops": ops}, nontrivial=len(insts) >= 2)
+        run.case({"what": "instances", "ops": ops, "shape": shape}, nontrivial=len(insts) >= 2)
 
 
 def explore_tsa_operators(run, n_random):
@@ -856,11 +1089,20 @@ def replay(case):
     cc = case.get("case", case)
     what = cc.get("what", "")
     ch = dsched.scripted_chooser(["T%d" % i for i in cc.get("schedule", [])], then=dsched.round_robin_chooser())
-    if what.startswith("singleton"):
+    if what == "singleton-nested":
+        print(singleton_nested_run(cc["direct"], ch))
+    elif what == "singleton-failing":
+        print(singleton_failing_run(cc["threads"], set(cc["bad"]), ch))
+    elif what.startswith("singleton"):
         print(singleton_run(cc["threads"], ch, opcode=what.endswith("opcode"), raw=cc.get("raw_threads", False)))
     elif what.startswith("registry"):
         r = registry_run(cc["progs"], ch, opcode=what.endswith("opcode"), via=cc.get("via", "append"))
         print(r[1], r[3])
+    elif what == "tsa-zip":
+        import linecache
+        with zipped_stmts(0):
+            linecache.clearcache()
+            print(tsa_run([[tuple(s) for s in p] for p in cc["progs"]], ch))
     elif what.startswith("tsa"):
         print(tsa_run([[tuple(s) for s in p] for p in cc["progs"]], ch, opcode=what.endswith("opcode")))
     else:
